@@ -4,6 +4,14 @@ import json, os
 V = os.path.dirname(os.path.dirname(os.path.abspath(__file__)))
 
 CLAIMED = {
+ 'C14': dict(
+  text='Static decision of the accept/serve/stop protocol shape: per accepted socket exactly one hand-over (inline serve or one handler thread) '
+       'with the in-flight counter incremented before it on every path, handler and sequential branch run serve-close-decrement once in order '
+       'with the decrement as last access to the server, _running cleared only under the observed stop request while leaving the loop, stop(true) '
+       'waits on loop and counter, Thread objects deleted only after join, no self-delete in run() (recorded known finding for the handler thread), '
+       'Socket_::close invalidates the handle. OS scheduling behaviour is not decided.',
+  technique='CFG typestate dataflow (event-sequence per accepted socket, must-precede, join-before-delete), guard queries; positive-control fixture for the zero-expected rules',
+  ref='DESIGN.md section 3 C14'),
  'C13': dict(
   text='Static decision of the hand-over protocol shape behind run-exactly-once / join / finished(): trampolines order context copy, ready, '
        'user function and finished flag on every exit; creators wait for `ready` before the handed-over context dies and never store the '
